@@ -637,6 +637,21 @@ mod var {
     ];
 }
 
+/// Full response text used for the with/without-extensions comparison.  The
+/// validator reports some errors in hash-map iteration order (unused
+/// variables, ...): for a request rejected before execution (no data, no
+/// paths) the errors are compared as a sorted list.
+fn canon_json(resp: &Response) -> String {
+    let mut v = serde_json::to_value(resp).unwrap();
+    let rejected = resp.data == Value::Null && resp.errors.iter().all(|e| e.path.is_empty());
+    if rejected {
+        if let Some(serde_json::Value::Array(errs)) = v.get_mut("errors") {
+            errs.sort_by_key(|e| e.to_string());
+        }
+    }
+    format!("{} cc={:?} headers={:?}", v, (resp.cache_control.public, resp.cache_control.max_age), resp.http_headers)
+}
+
 // ------------------------------------------------------------ printers
 fn g_segs(it: &mut Interner, p: &[Seg]) -> String {
     g_list(p.iter(), |s| match s {
@@ -754,6 +769,12 @@ fn main() {
         j("mutation { ... on Mutation { id } ... { name } }", vec![], None, false, true),
         j("{ id a { id } bs { id } }", vec![(0, "a", Out::Ref(2))], None, false, true),
         j("{ ... on Query { k0: id } ...F } fragment F on Query { name }", vec![], None, true, true),
+        // the second known class: field names unknown to the registry, accepted by ValidationMode::Fast
+        j("{ nope id }", vec![], None, true, false),
+        j("{ a { k0: nope id } id }", vec![(0, "a", Out::Ref(2))], None, true, false),
+        j("{ node { score } }", vec![(0, "node", Out::Ref(2))], None, true, false),
+        j("{ bs { nope } }", vec![(0, "bs", Out::List(vec![Out::Ref(3)]))], None, true, false),
+        j("{ ab { id } named { id name } }", vec![(0, "ab", Out::Ref(2)), (0, "named", Out::Ref(3))], None, true, false),
         // cut-off rules
         j("{ a { id }", vec![], None, false, false),
         j("query { id ", vec![], None, true, false),
@@ -801,16 +822,20 @@ fn main() {
             let mut dg = DocGen { r: rng.fork(), frags: vec![], uses: vec![], dup: rng.chance(1, 2) };
             let (mut text, vars, mut opname) = dg.document();
             // malformed variants: truncated text (parse error), unknown field (validation error), unknown operation name
+            let mut fast = rng.chance(1, 4);
             match rng.below(24) {
                 0 => {
                     let cut = rng.below(text.len().max(1));
                     text = text.chars().take(cut).collect();
+                    // a cut between definitions leaves spreads of undefined fragments, which only strict
+                    // validation rejects (the executor's "Unknown fragment" error is not modelled)
+                    fast = false;
                 }
                 1 => text = text.replacen("id", "idd", 1),
                 2 => opname = Some("Nope".to_string()),
                 _ => {}
             }
-            Job { text, vars, opname, nodes: world.nodes, fast: rng.chance(1, 4), intro: rng.chance(1, 10) }
+            Job { text, vars, opname, nodes: world.nodes, fast, intro: rng.chance(1, 10) }
         };
         let parsed = async_graphql::parser::parse_query(&job.text).ok();
         let mut runs: Vec<Run> = vec![];
@@ -827,12 +852,7 @@ fn main() {
             let resp = block_on(schemas[job.fast as usize][k].execute(req));
             let hooks = std::mem::take(&mut *LOG.lock().unwrap());
             let trace: Vec<(usize, String)> = w.trace.lock().unwrap().iter().filter_map(|e| if let Event::Start(_, n, f) = e { Some((*n, f.clone())) } else { None }).collect();
-            let json = format!(
-                "{} cc={:?} headers={:?}",
-                serde_json::to_string(&resp).unwrap(),
-                (resp.cache_control.public, resp.cache_control.max_age),
-                resp.http_headers
-            );
+            let json = canon_json(&resp);
             let faults = w.nodes.iter().map(|n| n.1.values().filter(|o| **o == Out::Err).count()).sum::<usize>();
             runs.push(Run { resp, json, trace, hooks, faults });
         }
@@ -865,11 +885,12 @@ fn main() {
                 g_list(r.hooks.iter(), |e| g_ev(&mut it, e))
             );
             let gcfg = format!(
-                "{{| c_k := {}%N; c_valid := {}; c_intro := {}; c_empty := {} |}}",
+                "{{| c_k := {}%N; c_valid := {}; c_intro := {}; c_empty := {}; c_fast := {} |}}",
                 k,
                 g_bool(valid),
                 g_bool(job.intro),
-                it.n("EmptyMutation")
+                it.n("EmptyMutation"),
+                g_bool(job.fast)
             );
             let nontrivial = k > 0 && (r.resp.data != Value::Null || !r.resp.errors.is_empty());
             let meta = format!(
@@ -925,7 +946,7 @@ fn main() {
                     LOG.lock().unwrap().clear();
                     let resp = block_on(vs[k].execute(req));
                     let hooks = std::mem::take(&mut *LOG.lock().unwrap());
-                    let json = format!("{} cc={:?} headers={:?}", serde_json::to_string(&resp).unwrap(), (resp.cache_control.public, resp.cache_control.max_age), resp.http_headers);
+                    let json = canon_json(&resp);
                     jsons.push(json.clone());
                     let same = json == jsons[0];
                     let meta = format!(
